@@ -22,7 +22,7 @@ from . import graph
 
 MUTANT_PROPERTY = {
     "m01": "C06", "m02": "C06", "m03": "C06", "m04": "C01", "m05": "C16", "m06": "C20", "m07": "C13", "m08": "C19",
-    "m09": "C09", "m10": "C09", "m11": "C11", "m12": "C14", "m13": "C14", "m14": "C13", "m15": "C09", "m16": "C10", "m17": "C06", "m18": "C06", "m19": "C01", "m21": "C01", "m22": "C07",
+    "m09": "C09", "m10": "C09", "m11": "C11", "m12": "C14", "m13": "C14", "m14": "C13", "m15": "C09", "m16": "C10", "m17": "C06", "m18": "C06", "m19": "C01", "m21": "C01", "m22": "C07", "m23": "C14", "m24": "C16",
 }
 
 
